@@ -77,10 +77,20 @@ fn build(ctx: &Ctx, tier: Tier, seed: u64) -> Vec<Job<'static>> {
         let k = Knobs { unack: Some(unack), closure: if unack { Some(true) } else { None }, max_segments: 4, limit_min: 2, limit_max: 4, ..Knobs::default() };
         let mut sc = gen::pair_cfg(&mut rng, &k);
         workload(&mut sc, &mut rng, ci, unack);
+        // "duplicates or stragglers of ... prompts": in every third configuration the sending user
+        // asks for a Prompt in mid-transfer, so that a Prompt PDU exists to be delivered again
+        let prompt: Vec<Entry> = if ci % 3 == 1 && !unack {
+            let op = if ci % 2 == 0 { UserOp::PromptKa } else { UserOp::PromptNak };
+            vec![Entry::User { ent: 0, op, put: 0, at: Trigger::AfterPdu { src: 0, dst: 1, n: 0 } }]
+        } else {
+            vec![]
+        };
+        sc.script.extend(prompt.iter().cloned());
         ff.push(sc.clone());
         for (_label, base) in window_bases(&sc) {
             let mut b = sc.clone();
             b.script = base;
+            b.script.extend(prompt.iter().cloned());
             // learn what the forward direction carried in this (faulted) exchange
             let prof = gen::profile_keep_script(&b, &root, 0, 1);
             let nfwd = prof.fwd.len() as u32;
@@ -136,6 +146,10 @@ fn build(ctx: &Ctx, tier: Tier, seed: u64) -> Vec<Job<'static>> {
             workload(&mut sc, &mut rng, w, unack);
             let prof = crate::checks::estimate_profile(&sc);
             sc.script = gen::wild_script(&mut rng, &sc, &prof, 0, 1);
+            if !unack && rng.chance(1, 4) {
+                let op = if rng.chance(1, 2) { UserOp::PromptKa } else { UserOp::PromptNak };
+                sc.script.push(Entry::User { ent: 0, op, put: 0, at: Trigger::AfterPdu { src: 0, dst: 1, n: rng.below(3) as u32 } });
+            }
             // bias: make the window likely
             if rng.chance(2, 3) {
                 sc.script.push(Entry::Fault { src: 0, dst: 1, sel: Sel::Kind(Kind::AckFin, 0), act: Act::Drop });
